@@ -228,12 +228,12 @@ func groupOf(keys []string, a *Arrival) (string, map[string][]string) {
 }
 
 type batchRec struct {
-	at    time.Duration // vnow() at sink entry
-	stalls int64        // vstalls at sink entry
-	items []pitems.Item
-	count int // as the processor counts: records / spans / data points
-	md    map[string][]string
-	noMD  bool // no client.Info metadata keys at all
+	at     time.Duration // vnow() at sink entry
+	stalls int64         // vstalls at sink entry
+	items  []pitems.Item
+	count  int // as the processor counts: records / spans / data points
+	md     map[string][]string
+	noMD   bool // no client.Info metadata keys at all
 }
 
 type sink struct {
